@@ -234,6 +234,20 @@ func (e *Env) finish(tx *types.Transaction, from int) *types.Transaction {
 	return tx
 }
 
+// ToExec builds a signed coins TransferToExec: the role deposits amount into its account inside the executor.
+func (e *Env) ToExec(from int, exec string, amount int64) *types.Transaction {
+	act := &cty.CoinsAction{Ty: cty.CoinsActionTransferToExec, Value: &cty.CoinsAction_TransferToExec{TransferToExec: &types.AssetsTransferToExec{Amount: amount, ExecName: exec, To: address.ExecAddress(exec)}}}
+	tx := &types.Transaction{Execer: []byte("coins"), Payload: types.Encode(act), To: address.ExecAddress(exec)}
+	return e.finish(tx, from)
+}
+
+// Withdraw builds a signed coins Withdraw: the role takes amount back out of its account inside the executor.
+func (e *Env) Withdraw(from int, exec string, amount int64) *types.Transaction {
+	act := &cty.CoinsAction{Ty: cty.CoinsActionWithdraw, Value: &cty.CoinsAction_Withdraw{Withdraw: &types.AssetsWithdraw{Amount: amount, ExecName: exec, To: address.ExecAddress(exec)}}}
+	tx := &types.Transaction{Execer: []byte("coins"), Payload: types.Encode(act), To: address.ExecAddress(exec)}
+	return e.finish(tx, from)
+}
+
 // None builds a signed transaction for the none executor.
 func (e *Env) None(from int) *types.Transaction {
 	tx := &types.Transaction{Execer: []byte("none"), Payload: []byte("none"), To: address.ExecAddress("none")}
